@@ -54,6 +54,10 @@ func (q c03Req) wire(i int) []byte {
 		}
 	case "sw":
 		v.Set("sw", strconv.Itoa(q.act))
+	case "ter":
+		v.Set("ter", "0")
+	case "te":
+		v.Set("te", "1")
 	}
 	for _, h := range q.hdrs {
 		v.Add("hdr", h[0]+":"+h[1])
@@ -90,6 +94,10 @@ func (q c03Req) wantBody() []byte {
 		return q.bopsBody()
 	case "body", "app", "raw":
 		return []byte(q.body)
+	case "ter":
+		return []byte("ter")
+	case "te":
+		return []byte("timed out!")
 	case "stream":
 		return bytes.Repeat([]byte("s"), q.act)
 	case "sw":
@@ -146,6 +154,13 @@ func decodeC03(a [][]byte) []c03Req {
 		f := strings.Split(string(x), "\x1f")
 		q := c03Req{method: f[0], ver: f[1], msg: f[3], body: f[4], bodyKind: f[5], skip: f[10] == "1"}
 		q.status, _ = strconv.Atoi(f[2])
+		if q.bodyKind == "ter" || q.bodyKind == "te" {
+			// the handler answers through the timeout path (TimeoutErrorWithResponse / TimeoutError): that response
+			// replaces whatever the handler had set on ctx.Response
+			f[3], f[8], f[9], f[10] = "", "", "", ""
+			q.msg, q.skip = "", false
+			q.status = map[string]int{"ter": 200, "te": 408}[q.bodyKind]
+		}
 		q.decl, _ = strconv.Atoi(f[6])
 		q.act, _ = strconv.Atoi(f[7])
 		for _, h := range strings.Split(f[8], "\x1e") {
@@ -365,6 +380,9 @@ func init() {
 							ops = append(ops, r.Pick([]string{"bfirst draft. ", "atail", "wmore", "rRAWBODY", "R", "x", "a-x-", "rsecond raw", "sSTREAMED", "b", "s"}))
 						}
 						q[5], q[4] = "bops", strings.Join(ops, "|")
+					}
+					if r.Chance(6) {
+						q[5] = r.Pick([]string{"ter", "te"}) // answered through the timeout path
 					}
 					var hs, cs []string
 					for k := 0; k < r.Intn(3); k++ {
